@@ -207,33 +207,54 @@ Proof. intros H. induction 1; constructor; auto. Qed.
 (* ---------- the plan: entries are patched into consecutive directory slots ---------- *)
 Definition types_of (plan : list step) : list N := flat_map (fun s => match stream_type s with Some t => [t] | None => [] end) plan.
 
-Lemma run_plan_ok c dir_base : forall plan idx ds acc tys K,
+(* what holds at every boundary between two destination calls: the builder invariant (so every location stored so far
+   designates an object already built) and every entry handed over so far spans objects already built *)
+Definition snap_ok (sn : snap) : Prop :=
+  Inv (fst sn) /\ Forall (fun d => exists ty, stream_ok ty (w_objs (fst sn)) d) (snd sn).
+
+Lemma goodq_get K : goodq K w_get (fun s r s' => r = s /\ s' = s).
+Proof. intros s HI _. exists s, s. split; [reflexivity|]. split; [exact HI|]. split; [apply grows_refl|auto]. Qed.
+
+Lemma dirs_any s acc tys : Forall2 (fun d ty => stream_ok ty (w_objs s) d) acc tys -> Forall (fun d => exists ty, stream_ok ty (w_objs s) d) acc.
+Proof. induction 1; constructor; eauto. Qed.
+
+Lemma run_plan_ok c dir_base : forall plan idx ds acc log tys K,
   dir_base + DIRENT_SZ * (idx + length (types_of plan)) <= K ->
-  goodq K (run_plan c dir_base plan idx ds acc)
-    (fun s dirs s' => Forall2 (fun d ty => stream_ok ty (w_objs s) d) acc tys ->
-                      Forall2 (fun d ty => stream_ok ty (w_objs s') d) dirs (rev tys ++ types_of plan)).
+  goodq K (run_plan c dir_base plan idx ds acc log)
+    (fun s r s' => Forall2 (fun d ty => stream_ok ty (w_objs s) d) acc tys ->
+                   Forall snap_ok log ->
+                   Forall2 (fun d ty => stream_ok ty (w_objs s') d) (fst r) (rev tys ++ types_of plan) /\
+                   Forall snap_ok (snd r)).
 Proof.
-  induction plan as [|st rest IH]; intros idx ds acc tys K Hb; cbn [run_plan].
-  - apply goodq_ret. intros s _ H. cbn [types_of flat_map]. rewrite app_nil_r. now apply Forall2_rev'.
+  induction plan as [|st rest IH]; intros idx ds acc log tys K Hb; cbn [run_plan].
+  - apply goodq_ret. intros s _ H Hlog. cbn [types_of flat_map fst snd]. rewrite app_nil_r. split; [now apply Forall2_rev'|].
+    apply Forall_rev. exact Hlog.
   - intros s HI HK. destruct (run_step_ok K c st ds s HI HK) as (r & s1 & E1 & HI1 & Hg1 & Hp).
-    unfold bind at 1. rewrite E1. unfold step_post in Hp.
+    unfold bind at 1. rewrite E1. unfold step_post in Hp. unfold bind at 1. cbn [w_get].
     assert (HK1 : K <= blen s1) by (destruct Hg1; lia).
     cbn [types_of flat_map] in Hb |- *. fold (types_of rest) in Hb |- *.
     destruct (fst r) as [d|] eqn:Ed; destruct (stream_type st) as [ty|] eqn:Et; try contradiction.
     + cbn [app length] in Hb.
       destruct (goodq_patch K (dir_base + DIRENT_SZ * idx) (enc_dirent d) ltac:(rewrite enc_dirent_len; unfold DIRENT_SZ in *; lia) s1 HI1 HK1)
         as (u & s2 & E2 & HI2 & Hg2 & (Hl2 & Ho2)).
-      unfold bind at 1. rewrite E2.
-      destruct (IH (S idx) (snd r) (d :: acc) (ty :: tys) K ltac:(lia) s2 HI2 ltac:(lia)) as (dirs & s3 & E3 & HI3 & Hg3 & Hq).
-      exists dirs, s3. split; [exact E3|]. split; [exact HI3|]. split; [eapply grows_trans; [exact Hg1|eapply grows_trans; eauto]|].
-      intro Hacc. cbn [app]. replace (rev tys ++ ty :: types_of rest) with (rev (ty :: tys) ++ types_of rest) by (cbn [rev]; now rewrite <- app_assoc).
-      apply Hq. constructor.
-      * rewrite Ho2. exact Hp.
-      * eapply Forall2_impl'; [|exact Hacc]. intros d0 t0 H0. eapply stream_ok_mono; [|exact H0]. eapply grows_trans; eauto.
+      unfold bind at 1. rewrite E2. unfold bind at 1. cbn [w_get].
+      destruct (IH (S idx) (snd r) (d :: acc) ((s2, d :: acc) :: (s1, acc) :: log) (ty :: tys) K ltac:(lia) s2 HI2 ltac:(lia)) as (res & s3 & E3 & HI3 & Hg3 & Hq).
+      exists res, s3. split; [exact E3|]. split; [exact HI3|]. split; [eapply grows_trans; [exact Hg1|eapply grows_trans; eauto]|].
+      intros Hacc Hlog. cbn [app]. replace (rev tys ++ ty :: types_of rest) with (rev (ty :: tys) ++ types_of rest) by (cbn [rev]; now rewrite <- app_assoc).
+      assert (Hacc1 : Forall2 (fun d0 t0 => stream_ok t0 (w_objs s1) d0) acc tys).
+      { eapply Forall2_impl'; [|exact Hacc]. intros d0 t0 H0. eapply stream_ok_mono; eauto. }
+      assert (Hacc2 : Forall2 (fun d0 t0 => stream_ok t0 (w_objs s2) d0) (d :: acc) (ty :: tys)).
+      { constructor; [rewrite Ho2; exact Hp|]. rewrite Ho2. exact Hacc1. }
+      apply Hq; [exact Hacc2|].
+      constructor; [split; [exact HI2|eapply dirs_any; exact Hacc2]|].
+      constructor; [split; [exact HI1|eapply dirs_any; exact Hacc1]|exact Hlog].
     + cbn [app] in Hb |- *.
-      destruct (IH idx (snd r) acc tys K Hb s1 HI1 HK1) as (dirs & s3 & E3 & HI3 & Hg3 & Hq).
-      exists dirs, s3. split; [exact E3|]. split; [exact HI3|]. split; [eapply grows_trans; eauto|].
-      intro Hacc. apply Hq. eapply Forall2_impl'; [|exact Hacc]. intros d0 t0 H0. eapply stream_ok_mono; eauto.
+      destruct (IH idx (snd r) acc ((s1, acc) :: log) tys K Hb s1 HI1 HK1) as (res & s3 & E3 & HI3 & Hg3 & Hq).
+      exists res, s3. split; [exact E3|]. split; [exact HI3|]. split; [eapply grows_trans; eauto|].
+      intros Hacc Hlog.
+      assert (Hacc1 : Forall2 (fun d0 t0 => stream_ok t0 (w_objs s1) d0) acc tys).
+      { eapply Forall2_impl'; [|exact Hacc]. intros d0 t0 H0. eapply stream_ok_mono; eauto. }
+      apply Hq; [exact Hacc1|]. constructor; [split; [exact HI1|eapply dirs_any; exact Hacc1]|exact Hlog].
 Qed.
 
 (* ---------- the whole image ---------- *)
@@ -241,10 +262,11 @@ Lemma plan_types_are : types_of (map fst stream_plan) = plan_types.
 Proof. reflexivity. Qed.
 
 Theorem image_sound c :
-  exists dirs s', image c empty_wst = Ok (dirs, s') /\ Inv s' /\
-    Forall2 (fun d ty => stream_ok ty (w_objs s') d) dirs plan_types /\
+  exists r s', image c empty_wst = Ok (r, s') /\ Inv s' /\
+    Forall2 (fun d ty => stream_ok ty (w_objs s') d) (fst r) plan_types /\
     In {| o_kind := KHeader; o_rva := 0; o_len := HEADER_SZ |} (w_objs s') /\
-    In {| o_kind := KDirectory; o_rva := HEADER_SZ; o_len := DIRENT_SZ * NUM_DIRS |} (w_objs s').
+    In {| o_kind := KDirectory; o_rva := HEADER_SZ; o_len := DIRENT_SZ * NUM_DIRS |} (w_objs s') /\
+    Forall snap_ok (snd r).
 Proof.
   assert (HI0 : Inv empty_wst) by (constructor; cbn; [reflexivity|constructor]).
   unfold image.
@@ -256,18 +278,19 @@ Proof.
   assert (Hdir0 : N.to_nat (l_rva dir) = HEADER_SZ) by (rewrite Hdir; reflexivity).
   destruct (goodq_patch (blen s2) (N.to_nat (l_rva hd)) (enc_header (ic_time c) (l_rva dir))
               ltac:(rewrite enc_header_len, Hhd0, Hl2; unfold HEADER_SZ; lia) s2 HI2 (le_n _)) as (u & s3 & E3 & HI3 & Hg3 & (Hl3 & Ho3)).
-  unfold bind at 1. rewrite E3.
-  destruct (run_plan_ok c (N.to_nat (l_rva dir)) (map fst stream_plan) 0 ([], CNone) [] [] (blen s3)
-              ltac:(rewrite Hdir0, Hl3, Hl2, plan_types_are; vm_compute; lia) s3 HI3 (le_n _)) as (dirs & s4 & E4 & HI4 & Hg4 & Hq).
-  exists dirs, s4. split; [exact E4|]. split; [exact HI4|]. split; [|split].
-  - rewrite plan_types_are in Hq. apply Hq. constructor.
+  unfold bind at 1. rewrite E3. unfold bind at 1. cbn [w_get].
+  destruct (run_plan_ok c (N.to_nat (l_rva dir)) (map fst stream_plan) 0 ([], CNone) [] [(s3, [])] [] (blen s3)
+              ltac:(rewrite Hdir0, Hl3, Hl2, plan_types_are; vm_compute; lia) s3 HI3 (le_n _)) as (res & s4 & E4 & HI4 & Hg4 & Hq).
+  exists res, s4. split; [exact E4|]. split; [exact HI4|].
+  rewrite plan_types_are in Hq. destruct Hq as (Hq1 & Hq2); [constructor|constructor; [split; [exact HI3|constructor]|constructor]|].
+  split; [exact Hq1|]. split; [|split; [|exact Hq2]].
   - eapply grows_in; [exact Hg4|]. rewrite Ho3, Ho2. right. rewrite Ho1. now left.
   - eapply grows_in; [exact Hg4|]. rewrite Ho3, Ho2. now left.
 Qed.
 Print Assumptions image_sound.
 
 (* the image model never fails and never panics, whatever the content (C02 for the composed layout) *)
-Corollary image_total c : exists dirs s', image c empty_wst = Ok (dirs, s').
+Corollary image_total c : exists r s', image c empty_wst = Ok (r, s').
 Proof. destruct (image_sound c) as (d & s & E & _). eauto. Qed.
 
 (* non-vacuity: a content with a thread, a module, a failed file copy *)
@@ -278,3 +301,38 @@ Example image_example :
      ic_environ := None; ic_auxv := None; ic_maps := None; ic_limits := None; ic_dso := IDsoFail []; ic_names := [(5%N, [97]%N)]; ic_handles := [];
      ic_soft := None |} = Some b /\ length b = 730.
 Proof. vm_compute. eexists. split; reflexivity. Qed.
+
+(* C10 for the whole image: at every boundary between two destination calls of generate_dump (after the flush of each
+   stream's bytes, and again after its directory entry) every location stored so far designates bytes already built and
+   every directory entry handed over so far names bytes already built *)
+Definition ref_inside (len : nat) (r : ref) : Prop := r_len r = 0%N \/ N.to_nat (r_rva r) + N.to_nat (r_len r) <= len.
+Definition dirent_inside (len : nat) (d : dirent) : Prop :=
+  d = zero_dirent \/ N.to_nat (l_rva (snd d)) + N.to_nat (l_size (snd d)) <= len.
+
+Lemma ext_inside s l : Inv s -> ext (w_objs s) l -> N.to_nat (l_rva l) + N.to_nat (l_size l) <= blen s.
+Proof.
+  intros [Ht _] (o1 & Hin1 & Hr & Hs).
+  pose proof (tiled_bounds _ _ o1 Ht Hin1) as B1. pose proof (u32_le (o_rva o1)) as U. rewrite Hr in U. unfold blen.
+  destruct Hs as [Hs|(o2 & Hin2 & Ha & Hs)].
+  - rewrite <- Hs. lia.
+  - pose proof (tiled_bounds _ _ o2 Ht Hin2) as B2. rewrite <- Hs. lia.
+Qed.
+
+Theorem image_prefixes c r s' : image c empty_wst = Ok (r, s') ->
+  Forall (fun sn => Forall (ref_inside (blen (fst sn))) (w_refs (fst sn)) /\ Forall (dirent_inside (blen (fst sn))) (snd sn)) (snd r).
+Proof.
+  intro E. destruct (image_sound c) as (r0 & s0 & E0 & _ & _ & _ & _ & Hlog). rewrite E in E0. injection E0 as <- <-.
+  eapply Forall_impl; [|exact Hlog]. intros (s, dirs) (HI & Hd). cbn [fst snd] in *. split.
+  - destruct HI as [Ht Hr]. eapply Forall_impl; [|exact Hr]. intros rf [H0|(o & Hin & _ & Hrva & Hlen)]; [now left|right].
+    pose proof (tiled_bounds _ _ o Ht Hin) as Hb. pose proof (u32_le (o_rva o)) as Hu. rewrite <- Hrva, <- Hlen, Nat2N.id. unfold blen. lia.
+  - eapply Forall_impl; [|exact Hd]. intros d (ty & [Hz|(_ & He)]); [now left|right]. now apply ext_inside.
+Qed.
+Print Assumptions image_prefixes.
+
+(* the log is not empty talk: one snapshot for the header flush and one or two per step of the plan *)
+Example image_log_length :
+  match image {| ic_time := 0; ic_threads := []; ic_blamed := 0; ic_crash := None; ic_modules := []; ic_app := []; ic_sysinfo := []; ic_osver := [];
+                 ic_meminfo := []; ic_cpuinfo := None; ic_status := None; ic_lsb := None; ic_cmdline := None; ic_environ := None; ic_auxv := None;
+                 ic_maps := None; ic_limits := None; ic_dso := IDsoFail []; ic_names := []; ic_handles := []; ic_soft := None |} empty_wst with
+  | Ok (r, _) => length (snd r) = 39 | _ => False end.
+Proof. vm_compute. reflexivity. Qed.
